@@ -232,17 +232,17 @@ ARENA = {
     'C01': dict(
         x=['block-outside-owned-memory', 'block-misaligned', 'live-blocks-overlap', 'block-smaller-than-requested', 'panic'],
         mism=['result-block', 'result-kind', 'stats'],
-        note='PARTIAL: invariant preservation proved for every modelled operation except alloc_try_with(_mut)-returning-Err'),
+        note='invariant preservation proved for EVERY modelled operation under its contract and lifted to all histories (ArenaInv2.run_inv); partial only in that the model itself is tied to the code by correspondence'),
     'C02': dict(
         x=['block-contents-changed', 'grow-lost-contents', 'shrink-lost-contents', 'zeroed-allocation-not-zero',
            'grow-zeroed-tail-not-zero', 'MODELUB', 'panic'],
         mism=['block-contents', 'result-block'],
-        note='PARTIAL: frame proved for allocate/allocate_zeroed/fill and all non-writing operations; grow/shrink copies rest on correspondence + byte-pattern monitor'),
+        note='frame and contents proved for allocate/allocate_zeroed/fill, all non-writing operations and every branch of grow(_zeroed)/shrink; PARTIAL: the other-blocks corollary is proved for grow only'),
     'C03': dict(
         x=['scope-exit-did-not-restore-allocated', 'scope-exit-did-not-restore-position', 'scope-exit-released-a-chunk',
-           'block-contents-changed', 'panic'],
+           'reset-to-start-did-not-rewind-to-the-first-chunk', 'block-contents-changed', 'panic'],
         mism=['stats', 'base-allocator-events'],
-        note='PARTIAL: restoration theorems proved; replay_needs_no_chunk / reset_loop_converges not proved'),
+        note='PARTIAL: restoration theorems and invariant preservation (reset_to, alloc_try_with Err, scoped_aligned exit) proved; replay_needs_no_chunk / reset_loop_converges not proved'),
     'C05': dict(
         x=['base-allocator-ledger', 'chunks-not-released-exactly-once-by-drop', 'reset-did-not-keep-exactly-the-largest-chunk',
            'reset-to-start-called-the-base-allocator', 'chunk-outside-granted-block', 'scope-exit-released-a-chunk', 'panic'],
@@ -262,7 +262,8 @@ ARENA = {
         note='PARTIAL: identities, position and geometry proved from the invariant; strict growth of chunk sizes and forward/backward list equality are monitored on the implementation only'),
     'C13': dict(
         x=['deallocate-changed-allocated-although-deallocation-is-off', 'shrink-decreased-allocated-although-shrinking-is-off',
-           'block-contents-changed', 'panic'],
+           'block-contents-changed', 'live-blocks-overlap', 'grow-lost-contents', 'shrink-lost-contents', 'panic'],
+        search_x=True,
         mism=['result-block', 'stats'],
         note='PARTIAL: opt-out / non-last / same-address theorems proved; in-place grow clause not proved yet'),
 }
@@ -278,7 +279,7 @@ ARENA.update({
         x=['prepare-moved-a-bump-position', 'prepared-capacity-smaller-than-requested', 'committed-slice-lost-contents',
            'commit-advanced-position-by-more-than-contents-plus-padding', 'block-contents-changed', 'live-blocks-overlap', 'panic'],
         mism=['prepared-range', 'result-block', 'block-contents', 'stats'],
-        note='PARTIAL: prepare/fill/commit primitives (typed+dyn, forward+reverse) proved; the collection layer (growth policy) is not in this model'),
+        note='PARTIAL: prepare/fill/commit primitives (typed+dyn, forward+reverse) proved incl. invariant preservation and prepare => commit contract; the collection layer (growth policy) is exercised on the real MutBumpVec(Rev) only'),
     'C17': dict(
         x=['panic', 'block-misaligned', 'live-blocks-overlap'],
         mism=['result-block', 'result-kind', 'prepared-range', 'stats', 'block-contents'],
@@ -525,9 +526,9 @@ for _p in ARENA:
 COLLS = {
     'C06': dict(x=['accounted', 'lost', 'unknown element', 'stale slot'],
                 note='PARTIAL: conservation proved for the modelled algorithms; splice / map / into_iter / append / partition are covered by the drop-count monitor only'),
-    'C08': dict(x=['std::vec::Vec', 'contents differ', 'returned values differ', 'capacity:', 'accounted', 'lost'],
+    'C08': dict(x=['std::vec::Vec', 'contents differ', 'returned values differ', 'capacity:', 'capacity ', 'overwrote a neighbouring allocation', 'accounted', 'lost'],
                 note='PARTIAL: list-function refinement proved for the modelled operations; capacity clauses and unmodelled operations are checked against std::vec::Vec in lock-step only'),
-    'C16': dict(x=['split_off capacities', 'split_off part', 'changed the remaining part', 'changed the split-off part'],
+    'C16': dict(x=['split_off capacities', 'split_off part', 'changed the remaining part', 'changed the split-off part', 'parts:'],
                 ops=['split_off'],
                 note='PARTIAL: split_off (rotate in place) proved against its specification; split_at/first/last, partition, merge and part independence are checked on the implementation only'),
 }
@@ -586,9 +587,12 @@ def colls_verdict(ctx, pid, res, conf):
         msg = xl.split('::', 1)[1].strip() if '::' in xl else xl
         if not any(k in msg for k in conf['x']):
             continue
-        if pid == 'C16' and 'split_off' not in xl:
+        if pid == 'C16' and 'split_off' not in xl and 'parts probe' not in xl:
             continue
-        ctx.violations.append({'kind': 'colls-case', 'build': b, 'case': case, 'what_fails': xl,
+        if pid != 'C16' and 'parts probe' in xl:
+            continue
+        probe = ' probe ' in xl or ' reserve ::' in xl
+        ctx.violations.append({'kind': 'colls-probe' if probe else 'colls-case', 'build': b, 'case': None if probe else case, 'what_fails': xl,
                                'signature': 'colls:%s' % re.sub(r'[0-9]+', 'N', msg)[:80],
                                'how_to_replay': 'tools/vcheck %s --replay <this file>' % pid})
     rel = [(b, l) for (b, l) in res['mism'] if (pid != 'C16' or ' split_off ' in l)]
